@@ -258,9 +258,12 @@ func (w *World) buildResponse(req *http.Request, a *Ans, now time.Time) (*http.R
 	date := now.Add(-time.Duration(a.Dsk) * time.Second)
 	if a.NoDate == 1 {
 		date = now
+		if a.DFmt == 3 { // a Date field nobody can parse is no Date
+			add("Date", now.UTC().Format("Mon, 02 Jan 2006 15:04:05")+" UTC")
+		}
 		m["date"], m["dateg"] = logT(w.epoch, now), 0
 	} else {
-		s := httpDate(date)
+		s := httpDateF(date, a.DFmt)
 		add("Date", s)
 		w.regDate(s, date)
 		m["date"], m["dateg"] = logT(w.epoch, date), 1
@@ -284,7 +287,7 @@ func (w *World) buildResponse(req *http.Request, a *Ans, now time.Time) (*http.R
 			d = -d
 		}
 		e := date.Add(d)
-		s := httpDate(e)
+		s := httpDateF(e, a.DFmt)
 		add("Expires", s)
 		w.regDate(s, e)
 		m["exp"] = logT(w.epoch, e)
@@ -293,7 +296,7 @@ func (w *World) buildResponse(req *http.Request, a *Ans, now time.Time) (*http.R
 		m["lm"] = None
 	} else {
 		l := date.Add(-time.Duration(a.Lm) * time.Second)
-		s := httpDate(l)
+		s := httpDateF(l, a.DFmt)
 		add("Last-Modified", s)
 		w.regDate(s, l)
 		m["lm"] = logT(w.epoch, l)
@@ -442,6 +445,9 @@ func (w *World) buildResponse(req *http.Request, a *Ans, now time.Time) (*http.R
 	e2e := resp.Header.Clone()
 	if a.Hop == 2 && a.Fr != 2 && a.Fr != 3 {
 		e2e.Del("X-Multi")
+	}
+	if a.NoDate == 1 {
+		e2e.Del("Date") // none, or one nobody can parse: the cache supplies its own
 	}
 	for _, h := range []string{"Connection", "X-Hop-A", "Keep-Alive", "Proxy-Authenticate",
 		"Proxy-Authentication-Info", "Upgrade", "Te", "Proxy-Connection", "Transfer-Encoding", "Trailer"} {
@@ -597,6 +603,9 @@ func (w *World) apply304(tok, tag string) {
 		if k != "Content-Length" {
 			cur[k] = v
 		}
+	}
+	if _, ok := h["Date"]; !ok {
+		delete(cur, "Date") // a 304 without a (usable) Date: the cache supplies the time it received it
 	}
 }
 
